@@ -30,6 +30,23 @@ func main() {
 	switch os.Args[1] {
 	case "check":
 		os.Exit(cmdCheck(os.Args[2:]))
+	case "ssa":
+		// govc ssa <pkgdir-relative-to-repo> <funckey>
+		eng, err := loadEngine("/repo", []string{"./" + os.Args[2]}, "/verif/specs", nil)
+		if err != nil {
+			fmt.Println(err)
+			os.Exit(2)
+		}
+		for path := range eng.allPkgs {
+			if strings.HasSuffix(path, os.Args[2]) {
+				if fn := eng.lookupFunc(path, os.Args[3]); fn != nil {
+					fn.WriteTo(os.Stdout)
+					for h, n := range loopOrdinals(fn) {
+						fmt.Printf("loop %d: header block %d\n", n, h.Index)
+					}
+				}
+			}
+		}
 	default:
 		fmt.Fprintln(os.Stderr, "unknown command")
 		os.Exit(2)
@@ -256,9 +273,7 @@ func cmdCheck(args []string) int {
 			rp := writeReplay(outDir, *prop, o.Name, o.Result.Status, o, model)
 			suffix := ""
 			replayed := false
-			if o.Result.Status == "sat" && model != nil {
-				replayed = tryReplay(eng, *verif, *repo, o, model, rp)
-			}
+			replayed = tryReplay(eng, *verif, *repo, o, model, rp)
 			if !replayed {
 				suffix = " no-failing-input-found"
 			}
